@@ -35,6 +35,36 @@ MUTANTS = [
     ("unfix-F14c-decline", ["C16"], ["unfix_F14c_decline.diff"], []),
     ("unfix-F17-epoch-hint-by-hash", ["C17"], ["unfix_F17_epoch_hint_by_hash.diff"], []),
     ("unfix-F18-welcome-id-late", ["C16", "C06"], ["unfix_F18_welcome_id_late.diff"], []),
+    ("unfix-F21-welcome-marker-first", ["C12"], ["unfix_F21_welcome_marker_first.diff"], []),
+    ("c12-commit-marker-before-sync", ["C12"], [], [(CORE + "messages/commit.rs", """        // Sync the stored group metadata with the updated MLS group state
+        self.sync_group_metadata_from_mls(&group_id)?;
+
+        // Save a processed message so we don't reprocess
+        let processed_message = super::create_processed_message_record(
+            event.id,
+            None,
+            Some(mls_group.epoch().as_u64()),
+            Some(group_id.clone()),
+            message_types::ProcessedMessageState::ProcessedCommit,
+            None,
+        );
+
+        self.save_processed_message_record(processed_message)?;
+        Ok(())""", """        // Save a processed message so we don't reprocess
+        let processed_message = super::create_processed_message_record(
+            event.id,
+            None,
+            Some(mls_group.epoch().as_u64()),
+            Some(group_id.clone()),
+            message_types::ProcessedMessageState::ProcessedCommit,
+            None,
+        );
+
+        self.save_processed_message_record(processed_message)?;
+
+        // Sync the stored group metadata with the updated MLS group state
+        self.sync_group_metadata_from_mls(&group_id)?;
+        Ok(())""")]),
     ("c20-release-loop-skips-two", ["C20"], [], [(CORE + "epoch_snapshots.rs", '                for (i, snap) in removed.into_iter().enumerate() {\n                    // Skip the first one (index 0) - it was already consumed by rollback\n                    if i > 0 {\n                        let _ = storage.release_group_snapshot(&snap.group_id, &snap.snapshot_name);\n                    }\n                }', '                for snap in removed.into_iter().skip(2) {\n                    let _ = storage.release_group_snapshot(&snap.group_id, &snap.snapshot_name);\n                }')]),
     ("c20-release-loop-index-ne-one", ["C20"], [], [(CORE + "epoch_snapshots.rs", "                    if i > 0 {\n                        let _ = storage.release_group_snapshot", "                    if i != 1 {\n                        let _ = storage.release_group_snapshot")]),
     ("c16-welcome-admin-limit-stricter-than-group", ["C16", "C06"], [], [(MEM + "lib.rs", "pub const DEFAULT_MAX_ADMINS_PER_WELCOME: usize = 100;", "pub const DEFAULT_MAX_ADMINS_PER_WELCOME: usize = 50;")]),
@@ -846,33 +876,33 @@ EQ = os.path.join(HERE, "equiv")
 EQUIV = [
     # not behaviour-preserving: a partial repair sketch for F20 (name / description bounded at decode time, before the merge); the checks
     # must accept it (the four name / description obligations are discharged, nothing new fires)
-    ("eq-repair-sketch-F20-name-description-bounds", ["C06", "C08", "C15", "C05"], [os.path.join(EQ, "repair_sketch_f20_name_description_bounds.diff")], []),
-    ("eq-c20-release-loop-skip-one", ["C20", "C11", "C09"], [], [(CORE + "epoch_snapshots.rs", '                for (i, snap) in removed.into_iter().enumerate() {\n                    // Skip the first one (index 0) - it was already consumed by rollback\n                    if i > 0 {\n                        let _ = storage.release_group_snapshot(&snap.group_id, &snap.snapshot_name);\n                    }\n                }', '                for snap in removed.into_iter().skip(1) {\n                    let _ = storage.release_group_snapshot(&snap.group_id, &snap.snapshot_name);\n                }')]),
+    ("eq-repair-sketch-F20-name-description-bounds", ["C06", "C08", "C15", "C05", "C12"], [os.path.join(EQ, "repair_sketch_f20_name_description_bounds.diff")], []),
+    ("eq-c20-release-loop-skip-one", ["C20", "C11", "C09", "C12"], [], [(CORE + "epoch_snapshots.rs", '                for (i, snap) in removed.into_iter().enumerate() {\n                    // Skip the first one (index 0) - it was already consumed by rollback\n                    if i > 0 {\n                        let _ = storage.release_group_snapshot(&snap.group_id, &snap.snapshot_name);\n                    }\n                }', '                for snap in removed.into_iter().skip(1) {\n                    let _ = storage.release_group_snapshot(&snap.group_id, &snap.snapshot_name);\n                }')]),
     ("eq-sqlite-welcome-validation-helper", ["C16", "C06", "C10", "C12"], [os.path.join(EQ, "sqlite_welcome_validation_helper.diff")], []),
-    ("eq-memory-sort-by-key", ["C18", "C10", "C06"], [os.path.join(EQ, "memory_sort_by_key.diff")], []),
+    ("eq-memory-sort-by-key", ["C18", "C10", "C06", "C12"], [os.path.join(EQ, "memory_sort_by_key.diff")], []),
     ("eq-unrelated-additions", ["C%02d" % i for i in range(1, 21)], [os.path.join(EQ, "unrelated_additions.diff")], []),
-    ("eq-lookup-and-persist-helpers", ["C01", "C02", "C03", "C06", "C07", "C08", "C14", "C16"], [os.path.join(EQ, "lookup_and_persist_helpers.diff")], []),
-    ("eq-admin-helper", ["C05", "C14", "C06"], [os.path.join(EQ, "admin_helper.diff")], []),
-    ("eq-permissions-mode-at-create", ["C13"], [os.path.join(EQ, "permissions_mode_at_create.diff")], []),
-    ("eq-hydration-refactor", ["C01", "C07", "C11", "C20", "C06", "C14"], [os.path.join(EQ, "hydration_refactor.diff")], []),
-    ("eq-memory-snapshot-loops", ["C09", "C19", "C06", "C10"], [os.path.join(EQ, "memory_snapshot_loops.diff")], []),
+    ("eq-lookup-and-persist-helpers", ["C01", "C02", "C03", "C06", "C07", "C08", "C14", "C16", "C12"], [os.path.join(EQ, "lookup_and_persist_helpers.diff")], []),
+    ("eq-admin-helper", ["C05", "C14", "C06", "C12"], [os.path.join(EQ, "admin_helper.diff")], []),
+    ("eq-permissions-mode-at-create", ["C13", "C12"], [os.path.join(EQ, "permissions_mode_at_create.diff")], []),
+    ("eq-hydration-refactor", ["C01", "C07", "C11", "C20", "C06", "C14", "C12"], [os.path.join(EQ, "hydration_refactor.diff")], []),
+    ("eq-memory-snapshot-loops", ["C09", "C19", "C06", "C10", "C12"], [os.path.join(EQ, "memory_snapshot_loops.diff")], []),
     ("eq-benign-logging", ["C14", "C06", "C12"], [os.path.join(EQ, "benign_logging.diff")], []),
     ("eq-sqlite-restore-reorder", ["C09", "C12", "C19", "C10"], [os.path.join(EQ, "sqlite_restore_reorder.diff")], []),
     ("eq-sqlite-restore-format-sql", ["C09", "C12"], [os.path.join(EQ, "sqlite_restore_format.diff")], []),
-    ("eq-memory-restore-reorder", ["C09", "C08", "C10", "C19", "C06"], [os.path.join(EQ, "memory_restore_reorder.diff")], []),
-    ("eq-media-refactor", ["C17", "C06", "C14"], [os.path.join(EQ, "media_refactor.diff")], []),
-    ("eq-authorization-loops", ["C05", "C06", "C04"], [os.path.join(EQ, "authorization_loops.diff")], []),
-    ("eq-lookback-arithmetic", ["C02", "C06"], [os.path.join(EQ, "lookback_arith.diff")], []),
-    ("eq-keypackage-manual-exact-decode", ["C15", "C06", "C14", "C04"], [os.path.join(EQ, "keypackage_refactor.diff")], []),
-    ("eq-dedup-helper", ["C01", "C02", "C06", "C07", "C14"], [os.path.join(EQ, "dedup_helper.diff")], []),
-    ("eq-memory-refactor", ["C06", "C08", "C10", "C18", "C19"], [os.path.join(EQ, "memory_refactor.diff")], []),
+    ("eq-memory-restore-reorder", ["C09", "C08", "C10", "C19", "C06", "C12"], [os.path.join(EQ, "memory_restore_reorder.diff")], []),
+    ("eq-media-refactor", ["C17", "C06", "C14", "C12"], [os.path.join(EQ, "media_refactor.diff")], []),
+    ("eq-authorization-loops", ["C05", "C06", "C04", "C12"], [os.path.join(EQ, "authorization_loops.diff")], []),
+    ("eq-lookback-arithmetic", ["C02", "C06", "C12"], [os.path.join(EQ, "lookback_arith.diff")], []),
+    ("eq-keypackage-manual-exact-decode", ["C15", "C06", "C14", "C04", "C12"], [os.path.join(EQ, "keypackage_refactor.diff")], []),
+    ("eq-dedup-helper", ["C01", "C02", "C06", "C07", "C14", "C12"], [os.path.join(EQ, "dedup_helper.diff")], []),
+    ("eq-memory-refactor", ["C06", "C08", "C10", "C18", "C19", "C12"], [os.path.join(EQ, "memory_refactor.diff")], []),
     ("eq-sqlite-open-inline", ["C13", "C09", "C12", "C14"], [os.path.join(EQ, "sqlite_open_inline.diff")], []),
-    ("eq-welcome-refactor", ["C03", "C08", "C14", "C15", "C16"], [os.path.join(EQ, "welcome_refactor.diff")], []),
-    ("eq-application-helpers", ["C02", "C03", "C04", "C06", "C07", "C14", "C17", "C18"], [os.path.join(EQ, "application_helpers.diff")], []),
+    ("eq-welcome-refactor", ["C03", "C08", "C14", "C15", "C16", "C12"], [os.path.join(EQ, "welcome_refactor.diff")], []),
+    ("eq-application-helpers", ["C02", "C03", "C04", "C06", "C07", "C14", "C17", "C18", "C12"], [os.path.join(EQ, "application_helpers.diff")], []),
     ("eq-sql-formatting", ["C02", "C07", "C08", "C09", "C10", "C12", "C18", "C19"], [os.path.join(EQ, "sql_formatting.diff")], []),
-    ("eq-commit-helpers", ["C01", "C03", "C05", "C06", "C07", "C08", "C14"], [os.path.join(EQ, "commit_helpers.diff")], []),
+    ("eq-commit-helpers", ["C01", "C03", "C05", "C06", "C07", "C08", "C14", "C12"], [os.path.join(EQ, "commit_helpers.diff")], []),
     ("eq-c12-raii-transaction", ["C12", "C09", "C19"], [os.path.join(EQ, "c12_raii_transaction.diff")], []),
-    ("eq-c20-release-in-place-then-truncate", ["C11", "C20"], [], [(CORE + "epoch_snapshots.rs", """                let removed = queue.split_off(index);
+    ("eq-c20-release-in-place-then-truncate", ["C11", "C20", "C12"], [], [(CORE + "epoch_snapshots.rs", """                let removed = queue.split_off(index);
                 for (i, snap) in removed.into_iter().enumerate() {
                     // Skip the first one (index 0) - it was already consumed by rollback
                     if i > 0 {
